@@ -108,7 +108,8 @@ theorem row_fields (nsmap : List (Int × Int)) (al : List (Str × NodeId)) (e : 
     optParse e.attrs kMethodDeclarationId nsmap al = .ok r.methodDecl ∧
     (∃ t k, lookup kBrowseName e.attrs = some t ∧ browseSplit t = .ok (k, r.browseName) ∧
         r.browseNs = lookup k nsmap) ∧
-    mapE typedPair (e.attrs.filter fun p => !idAttrs.contains p.1) = .ok r.attrs := by
+    mapE typedPair (e.attrs.filter fun p => !idAttrs.contains p.1) = .ok r.attrs ∧
+    optDecode e.value = .ok r.value := by
   unfold parseNode at h
   split at h
   · simp at h
@@ -134,9 +135,12 @@ theorem row_fields (nsmap : List (Int × Int)) (al : List (Str × NodeId)) (e : 
                 split at h
                 · simp at h
                 · next others ho =>
-                  simp only [Except.ok.injEq] at h
-                  subst h
-                  exact ⟨rfl, rfl, rfl, ⟨t, hn, hp⟩, hdt, hpa, hmd, ⟨bt, bk, hb, hbs, rfl⟩, ho⟩
+                  split at h
+                  · simp at h
+                  · next val hv =>
+                    simp only [Except.ok.injEq] at h
+                    subst h
+                    exact ⟨rfl, rfl, rfl, ⟨t, hn, hp⟩, hdt, hpa, hmd, ⟨bt, bk, hb, hbs, rfl⟩, ho, hv⟩
 
 theorem mapE_typedPair_fst (l : List (Str × Str)) (ys : List (Str × AttrVal))
     (h : mapE typedPair l = .ok ys) : ys.map Prod.fst = l.map Prod.fst := by
@@ -163,7 +167,7 @@ theorem mapE_typedPair_fst (l : List (Str × Str)) (ys : List (Str × AttrVal))
 theorem attrs_exact (nsmap : List (Int × Int)) (al : List (Str × NodeId)) (e : NodeElem) (r : NodeRow)
     (h : parseNode nsmap al e = .ok r) :
     r.attrs.map Prod.fst = (e.attrs.filter fun p => !idAttrs.contains p.1).map Prod.fst :=
-  mapE_typedPair_fst _ _ (row_fields nsmap al e r h).2.2.2.2.2.2.2.2
+  mapE_typedPair_fst _ _ (row_fields nsmap al e r h).2.2.2.2.2.2.2.2.1
 
 theorem colon_not_digit : ¬ IsDigit ':' := by decide
 
@@ -271,9 +275,17 @@ def demoElem : NodeElem :=
               (kDataType, "Int32".toList), ("AccessLevel".toList, "3".toList)],
     displayNames := [some "Speed  ".toList, some "zweiter".toList], descriptions := [], refs := [] }
 
-example : parseNode (nsMapOf [4]) [("Int32".toList, ⟨0, .i, "6".toList⟩)] demoElem =
-    .ok { cls := "UAVariable".toList, nodeId := ⟨4, .s, "a;b=c".toList⟩, browseName := "Speed".toList, browseNs := some 4,
-          display := "Speed".toList, description := [], dataType := some ⟨0, .i, "6".toList⟩, parent := none,
-          methodDecl := none, attrs := [("AccessLevel".toList, .int 3)] } := by decide +kernel
+example : (parseNode (nsMapOf [4]) [("Int32".toList, ⟨0, .i, "6".toList⟩)] demoElem).map
+      (fun r => (r.nodeId, r.browseName, r.browseNs, r.display)) =
+    .ok (⟨4, .s, "a;b=c".toList⟩, "Speed".toList, some 4, "Speed".toList) := by decide +kernel
+example : (parseNode (nsMapOf [4]) [("Int32".toList, ⟨0, .i, "6".toList⟩)] demoElem).map
+      (fun r => (r.dataType, r.parent, r.attrs)) =
+    .ok (some ⟨0, .i, "6".toList⟩, none, [("AccessLevel".toList, .int 3)]) := by decide +kernel
+
+/-- **typed Value**: the row's Value is what `parse_value` makes of the element's Value child — for a
+    value written by the library's own encoder that is the value itself (C08 `tree_roundtrip`) -/
+theorem value_is_decoded (nsmap : List (Int × Int)) (al : List (Str × NodeId)) (e : NodeElem) (r : NodeRow)
+    (h : parseNode nsmap al e = .ok r) : optDecode e.value = .ok r.value :=
+  (row_fields nsmap al e r h).2.2.2.2.2.2.2.2.2
 
 end Opcua.C01
